@@ -51,6 +51,8 @@ ONLY = set(opt("--only-kind").split(",")) if opt("--only-kind") else None
 REL = [(" <= ", " < "), (" < ", " <= "), (" >= ", " > "), (" > ", " >= "), (" == ", " != "), (" != ", " == ")]
 CALLS = [("checked_add(", "wrapping_add("), ("checked_sub(", "wrapping_sub("), ("checked_mul(", "wrapping_mul("),
          ("saturating_sub(", "wrapping_sub("), (".min(", ".max("), (".max(", ".min("), ("chunks_exact", "chunks")]
+CASTS = [(" as u64", " as u32"), (" as u32", " as u16"), (" as usize", " as u16"), (" as u16", " as u8"), ("u64::from(", "u64::from(1 + "),
+         ("u32::from(", "u32::from(1 + "), ("map_eof(", "map_err("), (".is_empty()", ".is_empty() && false"), ("has_remaining()", "has_remaining() && true == false")]
 ARITH = [(" + 1", " + 2"), (" - 1", " - 2"), (" + 1", ""), (" - 1", ""), (" + ", " - "), (" << ", " >> "), (" >> ", " << "),
          (" && ", " || "), (" || ", " && ")]
 
@@ -74,7 +76,7 @@ def candidates(path):
             continue
         if "cfg(" in code or "verif" in code:
             continue
-        for kind, table in (("rel", REL), ("call", CALLS), ("arith", ARITH)):
+        for kind, table in (("rel", REL), ("call", CALLS), ("arith", ARITH), ("cast", CASTS)):
             for a, b in table:
                 for m in re.finditer(re.escape(a), code):
                     # generics / arrows / lifetimes
@@ -89,6 +91,10 @@ def candidates(path):
                 out.append(("const", i, m.start(), m.group(1), str(n + 1)))
                 if n > 0:
                     out.append(("const", i, m.start(), m.group(1), str(n - 1)))
+    for i, l in enumerate(src[:end]):
+        st = l.split("//")[0].strip()
+        if re.match(r"^(self|reader|input|buf|out|this|chunk_reader|data|metadata)[\w.]*\.[a-z_]+\(.*\)(\.await)?\??;$", st) and "=" not in st.split("(")[0]:
+            out.append(("drop-stmt", i, i, None, None))
     # delete a whole ensure_attach! / ensure_matches_attach! / bail statement
     i = 0
     while i < end:
@@ -143,7 +149,7 @@ for f, c in allc:
     kind = c[0]
     sh("git checkout -- .")
     src = open(os.path.join(wt, f)).read().split("\n")
-    if kind == "drop-ensure":
+    if kind in ("drop-ensure", "drop-stmt"):
         _, i, j, _, _ = c
         key = (f, i + 1, "\n".join(src[i:j + 1])[:200], "", kind)
         new = src[:i] + src[j + 1:]
